@@ -136,15 +136,23 @@ func checkLoopProgress(l *natLoop) loopVerdict {
 				continue
 			}
 			all := true
+			why := ""
 			for p := range rel {
-				if !noProgress(p.Edges[idx], p, l, map[ssa.Value]bool{}) {
+				echoWhy = ""
+				if !noProgressVia(p.Edges[idx], p, l, pred, map[ssa.Value]bool{}) {
 					all = false
+				} else if echoWhy != "" {
+					why = echoWhy
 				}
 			}
 			if all {
 				// memory cursors may still progress
-				if len(cursors) > 0 && !memoryNoProgress(l, cursors, conds) {
+				// (not when the variable is what a callee handed back unchanged: no call can advance it then)
+				if why == "" && len(cursors) > 0 && !memoryNoProgress(l, cursors, conds) {
 					continue
+				}
+				if why != "" {
+					return loopVerdict{"phi", false, fmt.Sprintf("back edge from b%d carries every exit-relevant variable unchanged: %s", pred.Index, why)}
 				}
 				return loopVerdict{"phi", false, fmt.Sprintf("back edge from b%d carries every exit-relevant variable unchanged", pred.Index)}
 			}
@@ -158,6 +166,35 @@ func checkLoopProgress(l *natLoop) loopVerdict {
 		return loopVerdict{"memory", true, "every cycle calls into the cursor the exit test reads"}
 	}
 	return loopVerdict{"unanalysed", true, "exit test depends on neither a loop variable nor a cursor object"}
+}
+
+var echoWhy string
+
+// noProgressVia: like noProgress, and also true when e is the result of an in-module call that may hand p back
+// unchanged under the facts that hold on the edge leaving block via.
+func noProgressVia(e ssa.Value, p *ssa.Phi, l *natLoop, via *ssa.BasicBlock, seen map[ssa.Value]bool) bool {
+	if e == ssa.Value(p) {
+		return true
+	}
+	if seen[e] {
+		return false
+	}
+	seen[e] = true
+	if why, ok := callEcho(e, p, via); ok {
+		echoWhy = why
+		return true
+	}
+	if q, ok := e.(*ssa.Phi); ok && l.blocks[q.Block()] && q.Block() != l.header {
+		if isLoopHeader(q.Block()) {
+			return false
+		}
+		for i, x := range q.Edges {
+			if noProgressVia(x, p, l, q.Block().Preds[i], seen) {
+				return true
+			}
+		}
+	}
+	return false
 }
 
 func noProgress(e ssa.Value, p *ssa.Phi, l *natLoop, seen map[ssa.Value]bool) bool {
@@ -284,4 +321,194 @@ func isLoopHeader(b *ssa.BasicBlock) bool {
 		}
 	}
 	return false
+}
+
+// ---- interprocedural part of the progress rule -------------------------------------------------
+// A loop of the form  for len(rest) > 0 { rest, err = f(rest, ...) ... }  advances only if f does not
+// hand its argument back unchanged. echoReturns summarises, for an in-module function, the returns at
+// which result ri is parameter pj itself (or a full re-slice of it), split by whether the error
+// result (if any) may be nil at that return.
+type echoSummary struct {
+	withNilErr    []*ssa.Return
+	withNonNilErr []*ssa.Return
+}
+
+var echoCache = map[string]*echoSummary{}
+
+func fullSliceOf(v ssa.Value, p *ssa.Parameter, depth int) bool {
+	if depth > 8 {
+		return false
+	}
+	switch x := v.(type) {
+	case *ssa.Parameter:
+		return x == p
+	case *ssa.Slice:
+		lowZero := x.Low == nil
+		if k, ok := x.Low.(*ssa.Const); ok && k.Value != nil && k.Value.ExactString() == "0" {
+			lowZero = true
+		}
+		return lowZero && x.High == nil && fullSliceOf(x.X, p, depth+1)
+	case *ssa.ChangeType:
+		return fullSliceOf(x.X, p, depth+1)
+	case *ssa.Phi:
+		for _, e := range x.Edges {
+			if fullSliceOf(e, p, depth+1) {
+				return true
+			}
+		}
+	}
+	return false
+}
+
+func echoReturns(fn *ssa.Function, ri, pj int) *echoSummary {
+	key := fmt.Sprintf("%s|%d|%d", FuncName(fn), ri, pj)
+	if s, ok := echoCache[key]; ok {
+		return s
+	}
+	s := &echoSummary{}
+	echoCache[key] = s
+	if fn == nil || len(fn.Blocks) == 0 || pj >= len(fn.Params) {
+		return s
+	}
+	p := fn.Params[pj]
+	errIdx := -1
+	res := fn.Signature.Results()
+	for i := 0; i < res.Len(); i++ {
+		if isErrorType(res.At(i).Type()) {
+			errIdx = i
+		}
+	}
+	for _, rt := range returnsOf(fn) {
+		if ri >= len(rt.Results) {
+			continue
+		}
+		// the error outcome of this return
+		canNil, canNonNil := true, false
+		var errV ssa.Value
+		if errIdx >= 0 {
+			errV = unspill(rt, errIdx)
+			switch {
+			case isNilConst(errV):
+			case definitelyNonNil(errV) || anyFact(domFacts(rt.Block()), func(f Fact) bool { return f.Op == "nonnil" && f.X == errV }):
+				canNil, canNonNil = false, true
+			default:
+				canNonNil = true
+			}
+		}
+		v := unspill(rt, ri)
+		if ex, ok := v.(*ssa.Extract); ok {
+			// the result of a callee handed through
+			cl, ok := ex.Tuple.(*ssa.Call)
+			if !ok {
+				continue
+			}
+			g := cl.Call.StaticCallee()
+			if g == nil || !InModule(g) || g == fn {
+				continue
+			}
+			for k, a := range cl.Call.Args {
+				if !fullSliceOf(a, p, 0) {
+					continue
+				}
+				inner := echoReturns(g, ex.Index, k)
+				inNil, inNonNil := len(inner.withNilErr) > 0, len(inner.withNonNilErr) > 0
+				if ee, ok := errV.(*ssa.Extract); ok && ee.Tuple == ssa.Value(cl) && isErrorType(ee.Type()) {
+					// the callee's error is handed through as well
+					if inNil && canNil {
+						s.withNilErr = append(s.withNilErr, rt)
+					}
+					if inNonNil && canNonNil {
+						s.withNonNilErr = append(s.withNonNilErr, rt)
+					}
+					continue
+				}
+				// own error value: the callee may have echoed under either outcome unless a fact on its error separates them
+				calleeNil, calleeNonNil := true, true
+				for _, fct := range domFacts(rt.Block()) {
+					x, ok := fct.X.(*ssa.Extract)
+					if ok && x.Tuple == ssa.Value(cl) && isErrorType(x.Type()) {
+						if fct.Op == "nil" {
+							calleeNonNil = false
+						}
+						if fct.Op == "nonnil" {
+							calleeNil = false
+						}
+					}
+				}
+				if (inNil && calleeNil) || (inNonNil && calleeNonNil) {
+					if canNil {
+						s.withNilErr = append(s.withNilErr, rt)
+					}
+					if canNonNil {
+						s.withNonNilErr = append(s.withNonNilErr, rt)
+					}
+				}
+			}
+			continue
+		}
+		if !fullSliceOf(v, p, 0) {
+			continue
+		}
+		if canNil {
+			s.withNilErr = append(s.withNilErr, rt)
+		}
+		if canNonNil {
+			s.withNonNilErr = append(s.withNonNilErr, rt)
+		}
+	}
+	return s
+}
+
+// callEcho: e (a back-edge value of header phi p) is result #i of an in-module call that receives p (or a
+// value that is p unchanged) as argument #j, and the callee may return that argument unchanged. ok reports
+// whether such a return is compatible with the facts that dominate the back edge (an err == nil test on the
+// same call excludes the error returns and vice versa).
+func callEcho(e ssa.Value, p *ssa.Phi, back *ssa.BasicBlock) (string, bool) {
+	ex, ok := e.(*ssa.Extract)
+	if !ok {
+		return "", false
+	}
+	cl, ok := ex.Tuple.(*ssa.Call)
+	if !ok {
+		return "", false
+	}
+	f := cl.Call.StaticCallee()
+	if f == nil || !InModule(f) || len(f.Blocks) == 0 {
+		return "", false
+	}
+	off := 0
+	if f.Signature.Recv() != nil {
+		off = 1
+	}
+	_ = off
+	for j, a := range cl.Call.Args {
+		if a != ssa.Value(p) {
+			continue
+		}
+		s := echoReturns(f, ex.Index, j)
+		if len(s.withNilErr)+len(s.withNonNilErr) == 0 {
+			continue
+		}
+		// which error outcome does the back edge allow?
+		errNil, errNonNil := true, true
+		for _, fct := range domFacts(back) {
+			x, ok := fct.X.(*ssa.Extract)
+			if !ok || x.Tuple != ssa.Value(cl) || !isErrorType(x.Type()) {
+				continue
+			}
+			if fct.Op == "nil" {
+				errNonNil = false
+			}
+			if fct.Op == "nonnil" {
+				errNil = false
+			}
+		}
+		if errNil && len(s.withNilErr) > 0 {
+			return fmt.Sprintf("%s may return its argument #%d unchanged as result #%d with a nil error", short(FuncName(f)), j, ex.Index), true
+		}
+		if errNonNil && len(s.withNonNilErr) > 0 {
+			return fmt.Sprintf("%s returns its argument #%d unchanged as result #%d when it fails, and the loop continues after the failure", short(FuncName(f)), j, ex.Index), true
+		}
+	}
+	return "", false
 }
